@@ -935,7 +935,11 @@ func genC19(r *Rand, tier, profile string) *Case {
 		k := r.Pick(keys)
 		switch x := r.Intn(10); {
 		case x < 5:
-			c.Steps = append(c.Steps, Step{K: "ins", T: k, S: fmt.Sprintf("v%d", r.Intn(100))})
+			v := fmt.Sprintf("v%d", r.Intn(100))
+			if r.Bool(0.12) {
+				v = "" // writing an empty value: the property counts non-empty entries only
+			}
+			c.Steps = append(c.Steps, Step{K: "ins", T: k, S: v})
 		case x < 8:
 			c.Steps = append(c.Steps, Step{K: "rem", T: k})
 		default:
